@@ -87,8 +87,19 @@ TReadback ==
                   /\ \A i \in 1..Len(S) : ReadBackRel(S[i], g[i], Exact)
                   /\ e.random => e.res.nonePastEnd
 
+\* C18 on large shapes, from the counts alone (up to 2 000 parts, 10^5 points)
+TBigSize ==
+    /\ Ev("bigsize") /\ UNCHANGED cur
+    /\ LET e == Rec[l]
+           sz == CASE e.t = 1 -> 16 [] e.t = 21 -> 24 [] e.t = 11 -> 32
+                   [] OTHER -> SizeWithM(e.t, IF HasParts(e.t) THEN e.nparts ELSE 0, e.npoints)
+       IN  On("C18") =>
+             /\ e.announced = sz /\ e.emitted = sz
+             /\ e.words = (sz + 4) \div 2
+             /\ e.fileLen = 100 + 8 + 4 + sz
+
 Init == l = 2 /\ cur = [t |-> 0, shapes |-> << >>]
-Next == TCase \/ TWritten \/ TSizes \/ TReadback
+Next == TCase \/ TWritten \/ TSizes \/ TReadback \/ TBigSize
 Spec == Init /\ [][Next]_vars
 
 \* acceptance: every line was consumed (line 1 is the meta line)
